@@ -67,6 +67,18 @@ Theorem C02_fragment_roundtrip : forall conv e pts,
     parse_program conv fuel token_EOF pts = POk (mkPres [Some (to_node e)] [] false true).
 Proof. exact fragment_program_roundtrip. Qed.
 
+(* ... and for a whole program that is a sequence of such statements, provided no statement after the first
+   starts with a token that continues the previous one (starts_fresh: not a postfix operator or `=>`, and
+   either without infix precedence or an opening parenthesis / bracket preceded by white space - the
+   complement is the recorded finding statement-starts-with-prefix-operator) *)
+Theorem C02_fragment_statements_roundtrip : forall conv es ptss,
+  Forall2 (stmt_ok conv) es ptss ->
+  (forall pts, In pts (tl ptss) -> match pts with t :: _ => starts_fresh t | [] => True end) ->
+  exists f0, forall fuel, (f0 <= fuel)%nat ->
+    parse_program conv fuel token_EOF (List.concat ptss)
+    = POk (mkPres (map (fun e => Some (to_node e)) es) [] false true).
+Proof. exact fragment_statements_roundtrip. Qed.
+
 (* the same inside any context: parseExpression at level p, on the tokens printed for e in a context
    of precedence c, behaves as the expression loop entered with left = e after the last of them *)
 Theorem C02_fragment_expression_in_context : forall conv e, wf_ex conv e = true -> ToksOk conv e.
@@ -114,6 +126,7 @@ Example C02_fragment_excludes_plus_in_plus : link_ok "a+(b+c)" = false.
 Proof. vm_compute. reflexivity. Qed.
 
 Print Assumptions C02_fragment_roundtrip.
+Print Assumptions C02_fragment_statements_roundtrip.
 Print Assumptions C02_fragment_expression_in_context.
 Print Assumptions C02_parse_fuel_independent.
 Print Assumptions C02_refuted.
